@@ -201,10 +201,12 @@ Definition process (c : config) (p : params) (e : entry) : option entry * Z :=
     [n] entries collected so far, [oldest] stamp of the last processed line. *)
 Fixpoint collect (c : config) (p : params) (lim : Z) (ls : list (option entry))
     (total n oldest : Z) : list entry * Z :=
+  (* the loop condition is tested before the next line is read: an exhausted
+     window reports the last scanned stamp even at the end of the files *)
+  if (0 <? p_scan p) && (p_scan p <=? total) then ([], oldest) else
   match ls with
   | [] => ([], 0)
   | x :: ls =>
-      if (0 <? p_scan p) && (p_scan p <=? total) then ([], oldest) else
       let (ent, ts) := match x with Some e => process c p e | None => (None, 0) end in
       match ent with
       | None => collect c p lim ls (total + 1) n ts
